@@ -2,7 +2,9 @@ package gojq
 
 import (
 	"context"
+	"encoding/json"
 	"math"
+	"math/big"
 	"reflect"
 	"sort"
 )
@@ -422,10 +424,16 @@ func (env *env) pathIntact(v any) bool {
 			v, w := reflect.ValueOf(v), reflect.ValueOf(w)
 			return v.Pointer() == w.Pointer() && v.Len() == w.Len()
 		}
-	case float64:
-		if w, ok := w.(float64); ok {
-			return v == w || math.IsNaN(v) && math.IsNaN(w)
+	case int, float64, *big.Int, json.Number:
+		switch w.(type) {
+		case int, float64, *big.Int, json.Number:
+			if v, ok := toFloat(v); ok && math.IsNaN(v) {
+				w, _ := toFloat(w)
+				return math.IsNaN(w)
+			}
+			return Compare(v, w) == 0
 		}
+		return false
 	}
 	return v == w
 }
